@@ -131,7 +131,7 @@ pub fn run_sub(t: &Template, c: &SubCase) -> SubVerdict {
     // ---- pre-state ----------------------------------------------------------------------------
     let mut st = t.state.clone();
     let bw = info.block_words;
-    let dead = Word::undef(0x0dead_0000);
+    let dead = crate::emu::any::SCRUBBED;
     for p in 0..info.temps.len() {
         st.set_loc(info.temps[p], dead);
     }
